@@ -2,7 +2,6 @@
 use crate::engine::*;
 use crate::ffi;
 use crate::gen::*;
-use crate::spec::*;
 use proptest::prelude::*;
 use redirectionio::action::{Action, TraceAction};
 use redirectionio::api::{
@@ -21,6 +20,16 @@ use std::sync::Arc;
 pub const BAD_REGEX: &[&str] = &[
     "", "(", ")", "[a-z", "(?P<x>a)", "a{1000}{1000}{1000}", "(a|b", "\\", "(?:(?:(?:(?:(?:a)))))", ".*", ".+", "(\\?.*)?$", "^(ES|FR)$", "[\\p{Ll}]+", "\\p{Zz}", "(?i)a", "a**", "(?<n>x)", "[[:alpha:]]+", "\\d+", "é+", "🤘", "(a)(b)(c)",
     "x{2,1}", "\u{0}", "a|", "|", "(?:)", "[^/]+", "(%[0-9A-Z]{2})+?",
+    // groups (named or not) that a match may skip; parentheses inside character classes
+    "(?:(?P<year>[0-9]{4})-)?[a-z]+", "(?P<opt>x)?[a-z0-9]+", "(a)?(?P<b>b)?[a-z]*", "[)a-z]+", "[(a-z]+", "(?P<n>[0-9]+)|[a-z]+",
+];
+/// instants that parse but sit at the edges of what the date formats can print
+pub const EXTREME_INSTANTS: &[&str] = &[
+    "+12000-01-01T00:00:00Z", "-0001-12-31T23:59:59Z", "+262142-12-31T23:59:59Z", "0000-01-01T00:00:00Z", "9999-12-31T23:59:59+00:00", "-262143-01-01T00:00:00Z", "2016-12-31T23:59:60Z", "1969-12-31T23:59:59.999999999-23:59", "2024-03-10T12:00:00Z",
+];
+/// Forwarded header values around the quoting rules
+pub const FORWARDED: &[&str] = &[
+    "for=\"", "by=x; FOR = \",198.51.100.17\"", "for=\"\"1.2.3.4\"\"", "for=;for;=;\"", "for=\"[", "for=\"[::1", "for=[::1]:x", "for=\"\"", "for=\"_x\";proto=\"", "=", ";", ",", "for", "FOR=\"[::1]:80\"", "for=1.2.3.4;for=\"", "proto=https;by=\";for=\"",
 ];
 pub const BAD_OPTS: &[(&str, &str)] = &[("from", "5"), ("to", "2"), ("from", "-1"), ("to", "x"), ("from", "99999999999999999999"), ("to", "0"), ("from", "0"), ("to", "1"), ("something", ""), ("with", "é"), ("something", "a"), ("with", "@x"), ("from", "1"), ("to", "18446744073709551615")];
 pub const BAD_STR: &[&str] = &[
@@ -52,6 +61,9 @@ pub struct Case {
     pub hops: u8,
     #[serde(default)]
     pub domains: bool,
+    /// picks the instant of the extra requests and their Forwarded value
+    #[serde(default)]
+    pub extreme: u16,
 }
 
 fn pointers(v: &Value, prefix: String, out: &mut Vec<String>) {
@@ -141,6 +153,8 @@ pub fn substitute_adversarial(rules: &mut [Value], subst: &[(u16, u16, u16)]) {
                 } else {
                     rule["markers"] = json!([{"name": "id", "regex": re}]);
                     rule["source"]["path"] = json!("/foo/@id");
+                    rule["target"] = json!("/t/@id");
+                    rule["examples"] = json!([{"url": "/foo/abc", "must_match": true, "unit_ids_applied": null}, {"url": "/foo/2024-abc", "must_match": true, "unit_ids_applied": null}, {"url": "/foo/42", "must_match": true, "unit_ids_applied": null}]);
                 }
             }
             1 => {
@@ -184,6 +198,12 @@ pub fn substitute_adversarial(rules: &mut [Value], subst: &[(u16, u16, u16)]) {
                     {"name": "a", "type": "request_remote_address"}, {"name": "m", "type": "request_method"}, {"name": "s", "type": "request_scheme"}
                 ]);
                 rule["target"] = json!("/@v/@/@h@t/@p@p/@a@m@s");
+                if p % 2 == 0 {
+                    // the rule matches /foo and carries an example at an instant the date formats may not print
+                    rule["source"] = json!({"path": "/foo"});
+                    rule["status_code"] = json!(302);
+                    rule["examples"] = json!([{"url": "/foo", "must_match": true, "unit_ids_applied": null, "datetime": EXTREME_INSTANTS[(*p as usize / 2) % EXTREME_INSTANTS.len()]}]);
+                }
             }
             14 => {
                 let sel = [":::", "[", "a[b='", "\\", ":not(", "*|*", ":nth-child(99999999999999999999)", "é", "a > > b", ""][(*p as usize) % 10];
@@ -210,7 +230,8 @@ pub fn substitute_adversarial(rules: &mut [Value], subst: &[(u16, u16, u16)]) {
                 rule["examples"] = json!([
                     {"url": s, "method": s, "headers": [{"name": s, "value": s}], "datetime": s, "ip_address": s, "response_status_code": p, "must_match": true, "unit_ids_applied": [s]},
                     {"url": format!("http://example.com/{s}"), "method": null, "headers": null, "ip_address": null, "response_status_code": null, "must_match": false, "unit_ids_applied": []},
-                    {"url": "/foo", "must_match": true, "unit_ids_applied": null, "ip_address": "10.1.2.3", "datetime": "2024-03-10T12:00:00Z"},
+                    {"url": "/foo", "must_match": true, "unit_ids_applied": null, "ip_address": "10.1.2.3", "datetime": EXTREME_INSTANTS[(*p as usize) % EXTREME_INSTANTS.len()]},
+                    {"url": "/foo/abc", "must_match": true, "unit_ids_applied": null},
                 ]);
             }
         }
@@ -419,6 +440,13 @@ pub fn check(case: &Case) -> Outcome {
             return out;
         }
     }
+    // fixed probes of the marker substitutions, at an instant and with a Forwarded value picked by the case
+    for (i, uri) in ["/foo/abc", "/foo/2024-abc", "/foo"].iter().enumerate() {
+        let mut r = Request::from_config(&cfg, uri.to_string(), None, None, None, None, None);
+        r.created_at = crate::spec::parse_instant(EXTREME_INSTANTS[(case.extreme as usize + i) % EXTREME_INSTANTS.len()]);
+        r.add_header("Forwarded".into(), FORWARDED[(case.extreme as usize / 8 + i) % FORWARDED.len()].to_string(), false);
+        requests.push(r);
+    }
     let body = case.body.input();
     pipeline(&mut out, &cfg, &parsed, &requests, &body, case.response_code, case.cache);
     if out.failed() {
@@ -435,7 +463,7 @@ pub fn strategy() -> BoxedStrategy<Case> {
         prop_oneof![3 => "/[ -~]{0,24}", 1 => "\\PC{0,16}", 1 => pick(BAD_STR.iter().map(|s| s.to_string()).collect()), 1 => Just("/".repeat(3000)), 1 => "/[a-z%?&=+#;]{0,40}"],
         prop::option::of(prop_oneof!["[a-zA-Z.:\\[\\]0-9-]{0,20}", "\\PC{0,8}"]),
         prop_oneof![Just("X-A".to_string()), Just("User-Agent".to_string()), Just("X-Forwarded-For".to_string()), Just("Forwarded".to_string()), "[ -~]{0,10}"],
-        prop_oneof![3 => "[ -~]{0,30}", 1 => Just("for=\"[::1]:80\";proto=https, for=unknown;by=_hidden,for=1.2.3.4".to_string()), 1 => Just("1.2.3.4, garbage, ::1, [::1]:8080".to_string()), 1 => "\\PC{0,12}"],
+        prop_oneof![3 => "[ -~]{0,30}", 1 => Just("for=\"[::1]:80\";proto=https, for=unknown;by=_hidden,for=1.2.3.4".to_string()), 1 => Just("1.2.3.4, garbage, ::1, [::1]:8080".to_string()), 1 => "\\PC{0,12}", 2 => pick(FORWARDED.iter().map(|s| s.to_string()).collect())],
     );
     let body = prop_oneof![
         2 => crate::dom::soup_strategy(20).prop_map(|s| crate::props::c16::Case::from_bytes(s.into_bytes())),
@@ -450,9 +478,9 @@ pub fn strategy() -> BoxedStrategy<Case> {
         body,
         pick(vec![0u16, 200, 301, 404, 500, 65535]),
         pick(vec![None, Some(0u64), Some(1), Some(3), Some(1000)]),
-        (pick(vec![0u8, 1, 2, 5, 255]), any::<bool>()),
+        (pick(vec![0u8, 1, 2, 5, 255]), any::<bool>(), any::<u16>()),
     )
-        .prop_map(|(base, subst, mutations, raw_requests, body, response_code, cache, (hops, domains))| Case { base, subst, mutations, raw_requests, body, response_code, cache, hops, domains })
+        .prop_map(|(base, subst, mutations, raw_requests, body, response_code, cache, (hops, domains, extreme))| Case { base, subst, mutations, raw_requests, body, response_code, cache, hops, domains, extreme })
         .boxed()
 }
 
